@@ -112,7 +112,7 @@ theorem collectFrames_inv {H : Heap} {L : Limits} (fs : List FrameIn) (c : Cache
       simp only [hc, if_true] at hf
       exact ih c t h hf
     · rename_i hc
-      simp only [hc, if_false] at hf
+      simp only [hc] at hf
       dsimp only at hf ⊢
       split
       · rename_i m hm
